@@ -1,3 +1,4 @@
+import errno
 import grp
 import os
 import pwd
@@ -90,7 +91,15 @@ class RealFs(RealVolumeOf, Fs):
         os.mkdir(path, mode)
 
     def move(self, path, dest):
-        return fs.move(path, dest)
+        # Only a cross-device rename falls back to copy+delete: for any other
+        # rename failure (EBUSY/EINVAL on a mount point, EACCES, ...) a
+        # copy+delete would leave the file half in the trash and half in place.
+        try:
+            os.rename(path, dest)
+        except OSError as e:
+            if e.errno != errno.EXDEV:
+                raise
+            fs.move(path, dest)
 
     def remove_file(self, path):
         fs.remove_file(path)
